@@ -104,6 +104,62 @@ func checkC01(c *Check) {
 	// to the bounce pipeline. The function producing the kept status must therefore never leave a class-0 enhanced code.
 	c.Rule("R9", "the status stored per failed recipient (QueueMetadata.RcptErrs) always has a non-zero enhanced-code class: in its producer every store of a run-time enhanced code is guarded by a test that the class digit is set, constants have class 4/5 (the report writer refuses class 0: no report would be emitted)", 2)
 	c01StatusClass(c)
+
+	// R10: the failure report is the recipient's terminal outcome. Its writers have mandatory fields (refusing them is
+	// a programming error of the caller) and optional ones – guarded by `info.F != ""` – whose content is outside the
+	// queue's control: Received-From-MTA is the name the client gave in EHLO/HELO. A value that cannot be represented
+	// must cost the field, not the report: an error return inside an optional-field block turns `EHLO xn--0` into "no
+	// failure report for any message of this client that fails on its first attempt".
+	c.Rule("R10", "failure report writers (internal/dsn): the block of an optional field (guarded by a non-empty test of that field) never returns an error – a value that cannot be represented drops the field, not the report", 3)
+	c01OptionalFields(c)
+}
+
+func c01OptionalFields(c *Check) {
+	p := c.P
+	n := 0
+	for _, fi := range funcsOfPkgs(p, "internal/dsn") {
+		sig := fi.Obj.Type().(*types.Signature)
+		if sig.Recv() == nil || refName(fi.Obj) != "WriteTo" {
+			continue
+		}
+		info := fi.Info()
+		var recv types.Object
+		if fi.Decl.Recv != nil && len(fi.Decl.Recv.List) == 1 && len(fi.Decl.Recv.List[0].Names) == 1 {
+			recv = info.Defs[fi.Decl.Recv.List[0].Names[0]]
+		}
+		c.SawFunc(fi.Name())
+		inspectNoLit(fi.Decl.Body, func(x ast.Node) bool {
+			is, ok := x.(*ast.IfStmt)
+			if !ok || is.Else != nil {
+				return true
+			}
+			be, ok := ast.Unparen(is.Cond).(*ast.BinaryExpr)
+			if !ok || be.Op != token.NEQ {
+				return true
+			}
+			sel, ok := ast.Unparen(be.X).(*ast.SelectorExpr)
+			if !ok || recv == nil || objOf(info, sel.X) != recv || fieldOf(info, sel) == nil {
+				return true
+			}
+			if s, isC := constString(info, be.Y); !isC || s != "" {
+				return true
+			}
+			n++
+			bad := token.NoPos
+			inspectNoLit(is.Body, func(y ast.Node) bool {
+				if ret, ok := y.(*ast.ReturnStmt); ok && len(ret.Results) == 1 && !isNilIdent(info, ret.Results[0]) {
+					bad = ret.Pos()
+				}
+				return true
+			})
+			key := fi.Pkg.Types.Name() + "." + recvTypeName(fi.Decl) + ".WriteTo:" + sel.Sel.Name
+			c.Hold("R10", key, is.Pos(), !bad.IsValid(), "the optional report field "+sel.Sel.Name+" makes the whole report fail when its value cannot be represented (return at line "+itoa(p.Fset.Position(bad).Line)+"): the field's content is not under the queue's control (Received-From-MTA is the client's EHLO name – `EHLO xn--0`), the generation error is only logged, nothing reaches the bounce pipeline and the recipient is dropped from the queue")
+			return true
+		})
+	}
+	if n < 3 {
+		c.Fail("R10", "optional-fields", token.NoPos, "undecided: fewer than three optional fields found in the report writers")
+	}
 }
 
 // c01StatusClass: see R9.
